@@ -242,6 +242,9 @@ func (f *SecretFactory) New(b []byte) (securememory.Secret, error) {
 
 	secret, err := newSecret(len(b), f.memcall())
 	if err != nil {
+		// b is wiped when New returns, whatever the outcome
+		core.Wipe(b)
+
 		return nil, err
 	}
 
